@@ -1,6 +1,7 @@
 package main
 
 import (
+	"encoding/binary"
 	"bytes"
 	"fmt"
 
@@ -83,15 +84,36 @@ func verifyControls(f *icl.File, rep *Report, rp map[string]any, phase string) {
 	if fc.CashLetterCount != len(f.CashLetters) || fc.TotalItemCount != fItems || fc.FileTotalAmount != fAmount {
 		rep.violate(Violation{Key: "C06:file-control" + phase, What: fmt.Sprintf("file control disagrees with a recount: have cashLetters=%d items=%d amount=%d; recount %d %d %d", fc.CashLetterCount, fc.TotalItemCount, fc.FileTotalAmount, len(f.CashLetters), fItems, fAmount), Replay: rp})
 	}
-	out, werr, _ := realWrite(f, encCfg{})
-	if werr == nil {
-		written := bytes.Count(out, []byte("\n"))
-		if fc.TotalRecordCount != written {
-			kinds := ""
-			if fc.TotalRecordCount != total {
-				kinds = fmt.Sprintf(" (independent count %d)", total)
+	// the count the writer emits: newline framing (count the newlines) and length-prefixed framing (walk the prefixes),
+	// in the default mode and with the FRB compatibility mode switched on in the process
+	for _, frb := range []bool{false, true} {
+		for _, e := range []encCfg{{}, {LP: true}} {
+			setFRB(frb)
+			out, werr, _ := realWrite(f, e)
+			setFRB(false)
+			if werr != nil {
+				continue
 			}
-			rep.violate(Violation{Key: "C06:total-record-count" + phase, What: fmt.Sprintf("FileControl.TotalRecordCount = %d but the writer emits %d records%s", fc.TotalRecordCount, written, kinds), Replay: rp})
+			written := 0
+			if e.LP {
+				for pos := 0; pos+4 <= len(out); written++ {
+					pos += 4 + int(binary.BigEndian.Uint32(out[pos : pos+4]))
+				}
+			} else {
+				written = bytes.Count(out, []byte("\n"))
+			}
+			if fc.TotalRecordCount != written {
+				kinds := ""
+				if fc.TotalRecordCount != total {
+					kinds = fmt.Sprintf(" (independent count %d)", total)
+				}
+				mode := ""
+				if frb {
+					mode = " with FRB_COMPATIBILITY_MODE=true"
+				}
+				rep.violate(Violation{Key: "C06:total-record-count" + phase, What: fmt.Sprintf("FileControl.TotalRecordCount = %d but the writer (%s%s) emits %d records%s", fc.TotalRecordCount, e, mode, written, kinds), Replay: rp})
+				return
+			}
 		}
 	}
 }
